@@ -109,7 +109,7 @@ def run(ck):
         progs.append(json.load(open(path))["program"])
         origin.append("corpus:" + os.path.basename(path))
     ncorpus = len(progs)
-    for _ in range(ck.n(300, 4000)):
+    for _ in range(ck.n(200, 4000)):
         progs.append(dc.gen_program(rng, big=(not ck.quick) and rng.random() < 0.5))
         origin.append("random")
     nrandom = len(progs) - ncorpus
@@ -172,7 +172,7 @@ def run(ck):
     # corpus and generated programs must be accepted by the analysis (the exhaustive block
     # may contain rules the analysis rejects; those are outside the property)
     rej_random = [r for r in rejected if origin[r[0]] != "exhaustive"]
-    verdicts = ck.run_coq("C01", "judge", terms, shard=max(10, len(terms) // 16 + 1))
+    verdicts = ck.run_coq("C01", "judge", terms, shard=max(25, len(terms) // 16 + 1))
     ck.log("model side done: %d comparisons" % len(terms))
     vc = {}
     f8_skipped = 0
